@@ -198,8 +198,12 @@ func GenCase(mode string) func(t *rapid.T) Case {
 				c.Msgs = append(c.Msgs, Msg{Client: msg.Client, Type: msg.Type, Repeat: true})
 			}
 		}
-		if mode == "C08" && rapid.IntRange(0, 4).Draw(t, "conc") == 0 {
+		if rapid.IntRange(0, 4).Draw(t, "conc") == 0 {
 			g := rapid.IntRange(2, 6).Draw(t, "goroutines")
+			// C09: often all goroutines speak for one client (copies of one message taking different
+			// paths, a retransmission overtaking the original): everything any of the replies
+			// delegates must be remembered
+			oneClient := mode == "C09" && rapid.Bool().Draw(t, "one-client")
 			for i := 0; i < g; i++ {
 				var s []Msg
 				nm := rapid.IntRange(1, 6).Draw(t, "conc-n")
@@ -207,6 +211,9 @@ func GenCase(mode string) func(t *rapid.T) Case {
 					m := Msg{Client: i % nclients, Type: rapid.SampledFrom(msgTypes).Draw(t, "type")}
 					if rapid.Bool().Draw(t, "own-client") {
 						m.Client = rapid.IntRange(0, nclients-1).Draw(t, "client")
+					}
+					if oneClient {
+						m.Client = 0
 					}
 					nia := rapid.IntRange(1, 2).Draw(t, "niapd")
 					for q := 0; q < nia; q++ {
